@@ -71,7 +71,7 @@ def parse_print_to_with(body, filetext):
     # loop head: `while (true) { if (*fmt is NUL) { break; }` == `while (*fmt isnt NUL) {` == `while (*fmt) {`
     #   (the test is the first statement of the body and nothing follows the loop but free/return)
     if eat(r"while \(true\) \{ if \(\*fmt is '\\0'\) \{ break; \} "): r['forms'].append('loop:true+break')
-    elif eat(r"while \(\*fmt(?: isnt '\\0')?\) \{ "): r['forms'].append('loop:while(*fmt)')
+    elif eat(r"while \(\*fmt(?: isnt '\\0')?\) \{ "): r['forms'].append('loop:while-not-NUL')
     else: return None
     if not eat(r'const char ?\* ?start = fmt; '): return None
     # literal run.  A: pointer loop, length fmt - start.  B: n = strcspn(fmt, "%") = number of leading bytes that are
